@@ -473,7 +473,7 @@ def run(ck):
         cases = [rp["case"]] if "case" in rp else []
     else:
         cases = load_corpus("c05.txt")
-        n = 9000 if ck.quick else 150000
+        n = 120000 if ck.quick else 1500000
         cases += gen_cases(rng, n)
     res = run_all(ck, impl, model, cases, ["--all"])
 
